@@ -745,6 +745,9 @@ class An:
                 rec=Rec(sc if isterm(sc) else ('unk','agg'), iv if isinstance(iv,IntV) else None, None, None,'agg@%d'%st['line'])
                 if sg is not None and isinstance(sg,tuple) and sg and sg[0]=='signv': rec.sign=sg[1]
                 v=rec
+            elif kind['a']=='adt' and not str(kind.get('adt','')).startswith('std::') and kind.get('fields') and len(kind['fields'])==len(ops) \
+                    and str(kind.get('adt','')).split('::')[-1] not in ('WithScale','Context','NonDigitRoundingData','InsigData'):
+                v=('tuple',ops)          # a plain crate-local struct carrying values: fields are read back by position
         self.write(s,lhs,v)
     def recval(self,s,r):
         """real value polynomial of rec (requires wellformed)"""
